@@ -514,10 +514,51 @@ pub fn run(ctx: &Ctx) -> Report {
     });
     st = st.merge(st_e);
 
+    // (f) histories: every ordered pair of queries from an alphabet of related strings, one right after the
+    //     other on the same thread — prefixes and extensions of one another, case / escape / separator variants,
+    //     long strings with a long common prefix, the same pairs in another order; each judged alone
+    let hist: Vec<String> = {
+        let long = format!("k={}", "v".repeat(100));
+        let many: String = (0..70).map(|i| format!("p{:02}=v", i)).collect::<Vec<_>>().join("&");
+        let mut v: Vec<String> = [
+            "", "a=1", "a=1&b=2", "b=2&a=1", "a=1&a=2", "a=2&a=1", "A=1", "a=1&", "&a=1", "a", "a=", "=", "=1", "a==1", "a=1=2", "a%3D1",
+            "a=%31", "a=+", "a=%20", "a=%2B", "a=%2b", "a=%zz", "a=%", "a=%4", "%zz=1", "a=1&a=1", "a=1&&a=1", "a=1&b=2&", "a=1&b=", "a=1&b",
+            "a=1&X-Amz-Signature=abc", "a=1&X-Amz-Signature=def", "a=1&x-amz-signature=abc", "X-Amz-Signature=abc", "a=1;b=2", "a=1&b=2#c",
+            "a=%C3%BC", "a=%c3%bc", "a=\u{fc}", "%61=1", "a=1&B=2", "a=1&b=%32",
+        ]
+        .iter()
+        .map(|x| x.to_string())
+        .collect();
+        for tail in ["", "1", "2", "&z=1", "&z=2", "%zz", "&", "&="] {
+            v.push(format!("{}{}", long, tail));
+            v.push(format!("{}{}", many, tail));
+        }
+        v
+    };
+    let nh = hist.len() as u64;
+    let base_f = base_e + e2e_lists * 2;
+    let st_f = par_sweep(nh * nh, |i, st| {
+        let (x, y) = (&hist[(i / nh) as usize], &hist[(i % nh) as usize]);
+        for (step, q) in [x, y].into_iter().enumerate() {
+            let exp = parse_query(q).ok().map(|p| canon_query(&p));
+            let before = st.violations.len();
+            let ok = eval(base_f + i, q, exp.as_deref(), st);
+            if step == 1 && st.violations.len() > before {
+                if let Some(v) = st.violations.last_mut() {
+                    v.case["preceded_by"] = json!(x);
+                    v.what = format!("{} (right after another query on the same thread)", v.what);
+                }
+            }
+            st.outcome(if ok { "history:agree" } else { "history:DISAGREE" });
+        }
+        st.nontrivial(&("history", x, y));
+    });
+    st = st.merge(st_f);
+
     Report {
         stats: st,
         rule: format!(
-            "(a) every ordered list of 0..={} parameters over {} names x {} values (all permutations included), compared with the reference canonical string computed from the logical multiset; (b) every list of <= {} parameters in every combination of {} per-element spellings (canonical, lower-case hex, needless escape, '+' for space, everything escaped) plus '&&'/leading/trailing '&' at every gap and omitted '='; (c) every byte 0..255 as %XX in both hex cases and every literal char < U+0800 in a name and in a value, every two-character escape over ASCII^2, malformed escapes at every position of three templates, '%' followed by multi-byte characters; 128 queries of 21..257 parameters over 1, 2, 3 or 8 repeated names in 4 arrival orders, each canonicalised 16 times through fresh maps; (d) iteration-order exhaustion of the crate's own HashMap for {} queries on worker and fresh OS threads, digests from {} fresh processes; (e) end-to-end acceptance of reference-signed requests for every list of <= 2 parameters on both carriers. states = distinct canonical strings; non-trivial = input differs from its canonical form",
+            "(a) every ordered list of 0..={} parameters over {} names x {} values (all permutations included), compared with the reference canonical string computed from the logical multiset; (b) every list of <= {} parameters in every combination of {} per-element spellings (canonical, lower-case hex, needless escape, '+' for space, everything escaped) plus '&&'/leading/trailing '&' at every gap and omitted '='; (c) every byte 0..255 as %XX in both hex cases and every literal char < U+0800 in a name and in a value, every two-character escape over ASCII^2, malformed escapes at every position of three templates, '%' followed by multi-byte characters; 128 queries of 21..257 parameters over 1, 2, 3 or 8 repeated names in 4 arrival orders, each canonicalised 16 times through fresh maps; (d) iteration-order exhaustion of the crate's own HashMap for {} queries on worker and fresh OS threads, digests from {} fresh processes; (e) end-to-end acceptance of reference-signed requests for every list of <= 2 parameters on both carriers; (f) every ordered pair over 58 related query strings (prefixes / extensions, case, escape and separator variants, 100- and 70-parameter strings differing only at the end, malformed ones) evaluated back to back on one thread, each judged alone. states = distinct canonical strings; non-trivial = input differs from its canonical form",
             max_len, NAMES.len(), VALUES.len(), resp_len, NVARIANTS, order_queries.len(), nproc
         ),
         bounds: json!({"max_params": max_len, "respelled_params": resp_len, "names": NAMES.len(), "values": VALUES.len()}),
@@ -539,6 +580,10 @@ pub fn replay(case: &Value) -> i32 {
     let q = case["query"].as_str().unwrap_or("");
     let exp = parse_query(q).ok().map(|p| canon_query(&p));
     let mut st = Stats::new();
+    if let Some(p) = case["preceded_by"].as_str() {
+        let e = parse_query(p).ok().map(|x| canon_query(&x));
+        eval(0, p, e.as_deref(), &mut Stats::new());
+    }
     let ok = eval(0, q, exp.as_deref(), &mut st);
     println!("query={:?}\nreference: {:?}\nimplementation: {:?}", q, exp, impl_canon(q));
     if ok {
